@@ -321,6 +321,12 @@ fn candidate_nameservers(
                 }
             }
 
+            // A nameserver whose own address is being resolved right now
+            // cannot be asked for it (its glue has left the cache before its
+            // NS record did): leave it out and, if none remains, try the zone
+            // above, which holds the glue.
+            hostnames.retain(|hostname| !context.is_resolving_address_of(hostname));
+
             if !hostnames.is_empty() {
                 return Some(Nameservers {
                     hostnames,
